@@ -55,13 +55,13 @@ Lemma deser_type_f_unfold fuel depth :
       else if id =? 34 then bind (deser_type_f custom f (depth + 1)) (fun e => ret (TSet false e))
       else if id =? 48 then
         bind read_string (fun ks => bind read_string (fun name => bind read_short (fun n =>
-        bind (tick_alloc (n * SZ_UDT_FIELD)) (fun _ =>
+        bind (tick_alloc (u16 n * SZ_UDT_FIELD)) (fun _ =>
         bind (repeatS (bind read_string (fun fname =>
                        bind (deser_type_f custom f (depth + 1)) (fun ft => ret (fname, ft)))) n)
              (fun fs => ret (TUdt false ks name fs))))))
       else if id =? 49 then
         bind read_short (fun n =>
-        bind (tick_alloc (n * SZ_COLTYPE)) (fun _ =>
+        bind (tick_alloc (u16 n * SZ_COLTYPE)) (fun _ =>
         bind (repeatS (deser_type_f custom f (depth + 1)) n) (fun es => ret (TTuple es))))
       else match native_of_id id with
            | Some nt => ret (TNative nt)
